@@ -16,6 +16,8 @@ package main
 //   (\G(?:P) under RE2, with groups) must reproduce the adapter's outputs.
 
 import (
+	"io"
+	"errors"
 	"fmt"
 	"reflect"
 	"regexp"
@@ -362,6 +364,15 @@ func c06Single(g, a compat.Matcher, s string) []string {
 	add(c06Diff("FindIndex", g.FindIndex(b), a.FindIndex(b)))
 	add(c06Diff("FindReaderIndex", g.FindReaderIndex(strings.NewReader(s)), a.FindReaderIndex(strings.NewReader(s))))
 	add(c06Diff("FindReaderSubmatchIndex", g.FindReaderSubmatchIndex(strings.NewReader(s)), a.FindReaderSubmatchIndex(strings.NewReader(s))))
+	// a reader that fails after some of the text: every read error is the end of the text, as for regexp
+	cut := len(s) / 2
+	for cut < len(s) && !utf8.RuneStart(s[cut]) {
+		cut++
+	}
+	er := func() io.RuneReader { return &c06ErrReader{r: strings.NewReader(s[:cut])} }
+	add(c06Diff("MatchReader(erroring reader)", g.MatchReader(er()), a.MatchReader(er())))
+	add(c06Diff("FindReaderIndex(erroring reader)", g.FindReaderIndex(er()), a.FindReaderIndex(er())))
+	add(c06Diff("FindReaderSubmatchIndex(erroring reader)", g.FindReaderSubmatchIndex(er()), a.FindReaderSubmatchIndex(er())))
 	add(c06Diff("FindString", g.FindString(s), a.FindString(s)))
 	add(c06Diff("FindStringIndex", g.FindStringIndex(s), a.FindStringIndex(s)))
 	add(c06Diff("FindStringSubmatch", g.FindStringSubmatch(s), a.FindStringSubmatch(s)))
@@ -627,6 +638,17 @@ func c06Unit(c *Ctx, st *c06Stats, p *c06Pair, hasB bool, s string, origin strin
 			}
 		}
 	}
+}
+
+// a RuneReader that reports a non-EOF error when its text is exhausted
+type c06ErrReader struct{ r *strings.Reader }
+
+func (e *c06ErrReader) ReadRune() (rune, int, error) {
+	ch, n, err := e.r.ReadRune()
+	if err != nil {
+		return 0, 0, errors.New("read failed")
+	}
+	return ch, n, nil
 }
 
 type c06Witness struct{ pat, in string }
